@@ -31,6 +31,10 @@ CHECKS = {
    text="Hypothesis search over positive-definite tensor fields of all nine systems and cell masses; Voigt/Reuss/Hill, bounds, compliances and velocities are recomputed from the rank-4 tensor (Mandel inverse) with own SI constants at every positive-definite grid point.",
    note="Reference is independent of Voigt factor conventions; PD decided by own eigvalsh; tolerance 1e-7 relative.",
    technique="Hypothesis differential test against reference tensor algebra", design="4/C07"),
+ "C11": dict(
+   text="Hypothesis search per method (stratified over shards) x admissible orders x table families: internal consistency of the returned triple by central differences at harness-chosen probes inside and beyond the sampled range, exactness on power-law data (and polynomial data for least squares), Gamma-acoustic zeros, (q,m) permutation equivariance and single-mode agreement; recording-axes check of the diagnostic plot for n=0,1,2 on real Calculator objects.",
+   note="Finite-difference tolerance from two step sizes; exactness tolerance for the monomial-basis methods scales with the condition number of their Vandermonde system; open finding method=hermite excluded and counted.",
+   technique="Hypothesis property-based test (finite-difference consistency, exactness and metamorphic oracles)", design="4/C11"),
  "C12": dict(
    text="Hypothesis sweep of the documented configuration space (7 interpolators x admissible orders, 9 systems, T grids down to 0.5 K and denormal T_MIN, optional sampling keys present/absent, BM order 3-5) on well-formed data sets; validity predicates: completes, real dtype, finite (isothermal everywhere; adiabatic where C_V>0; derived where PD), c(T)->c(0).",
    note="Well-formedness (monotonic pressure, requested pressures inside the range) decided with the qha package directly; open finding interpolator=hermite excluded and counted.",
